@@ -355,6 +355,87 @@ func main() {
 		return delegs[i].to < delegs[j].to
 	})
 
+	// ---- helper queries of package app (GetServicePID, GetFirstWorkService, RandGetWorkService, defaultRoute, ...):
+	// which directory getters (on `...GetCluster()`) each of them calls, transitively through package-level
+	// functions of the package, in source order; a call inside a loop or a function literal is marked `*`
+	// (it may run more than once).  Whatever the helpers are called and wherever in the package they live.
+	getterSet := map[string]bool{"GetServiceList": true, "GetWorkServiceList": true, "GetWorkServices": true,
+		"GetWorkServiceNames": true, "GetService": true, "GetMembers": true}
+	type span struct{ lo, hi token.Pos }
+	var hq func(fd *ast.FuncDecl, depth int) []string
+	hq = func(fd *ast.FuncDecl, depth int) []string {
+		if fd == nil || fd.Body == nil || depth > 8 {
+			return nil
+		}
+		var loops []span
+		ast.Inspect(fd.Body, func(n ast.Node) bool {
+			switch x := n.(type) {
+			case *ast.ForStmt:
+				loops = append(loops, span{x.Body.Pos(), x.Body.End()})
+			case *ast.RangeStmt:
+				loops = append(loops, span{x.Body.Pos(), x.Body.End()})
+			case *ast.FuncLit:
+				loops = append(loops, span{x.Body.Pos(), x.Body.End()})
+			}
+			return true
+		})
+		inLoop := func(p token.Pos) bool {
+			for _, l := range loops {
+				if p >= l.lo && p < l.hi {
+					return true
+				}
+			}
+			return false
+		}
+		var out []string
+		ast.Inspect(fd.Body, func(n ast.Node) bool {
+			c, ok := n.(*ast.CallExpr)
+			if !ok {
+				return true
+			}
+			var got []string
+			if se, ok := c.Fun.(*ast.SelectorExpr); ok && getterSet[se.Sel.Name] && mentions(se.X, "GetCluster") {
+				got = []string{se.Sel.Name}
+			} else if id, ok := c.Fun.(*ast.Ident); ok && plain[id.Name] != nil && plain[id.Name] != fd {
+				got = hq(plain[id.Name], depth+1)
+			}
+			for _, g := range got {
+				if inLoop(c.Pos()) && !strings.HasSuffix(g, "*") {
+					g += "*"
+				}
+				out = append(out, g)
+			}
+			return true
+		})
+		return out
+	}
+	type helperQ struct {
+		name string
+		gs   []string
+	}
+	var helpers []helperQ
+	for _, fp := range files {
+		rel, _ := filepath.Rel(*repo, fp)
+		for _, d := range parse(rel).Decls {
+			fd, ok := d.(*ast.FuncDecl)
+			if !ok || fd.Body == nil {
+				continue
+			}
+			name := fd.Name.Name
+			if fd.Recv != nil {
+				_, rt := recvOf(fd)
+				if rt == "Cluster" || rt == "ClusterServices" {
+					continue
+				}
+				name = rt + "." + name
+			}
+			if gs := hq(fd, 0); len(gs) > 0 {
+				helpers = append(helpers, helperQ{name, gs})
+			}
+		}
+	}
+	sort.Slice(helpers, func(i, j int) bool { return helpers[i].name < helpers[j].name })
+
 	// ---- etcd provider: order of "publish" and "spawn a goroutine that can publish" in the start-up
 	// functions, by flow (calls on the receiver are expanded in place, whatever the helpers are called)
 	prov := map[string]*ast.FuncDecl{}
@@ -484,6 +565,16 @@ func main() {
 	sb.WriteString("def startFlow : List (String × List String) := [\n")
 	fmt.Fprintf(&sb, "  (%q, %s),\n", "StartClient", leanList(flow("StartClient", 0)))
 	fmt.Fprintf(&sb, "  (%q, %s)\n]\n\n", "StartMember", leanList(flow("StartMember", 0)))
+	sb.WriteString("/-- (function of package app outside Cluster/ClusterServices, the directory getters it calls on `GetCluster()`, transitively through package-level functions, in source order; `*` = inside a loop or function literal) -/\n")
+	sb.WriteString("def helperQueries : List (String × List String) := [\n")
+	for i, h := range helpers {
+		sep := ","
+		if i == len(helpers)-1 {
+			sep = ""
+		}
+		fmt.Fprintf(&sb, "  (%q, %s)%s\n", h.name, leanList(h.gs), sep)
+	}
+	sb.WriteString("]\n\n")
 	sb.WriteString("end Cell2v.Gen.C08\n")
 
 	if *out == "" {
